@@ -304,6 +304,7 @@ def run(ctx):
     mutation(ctx, eff, memos)
     identity(ctx, eff, memos)
     preload_equiv(ctx)
+    preload_cover(ctx)
     handle(ctx)
     config(ctx)
 
@@ -498,6 +499,77 @@ def preload_equiv(ctx):
         ctx.fail('C15.4', choke, enclosing_stmt(sub), 'with preload the choke point returns %s[%s] but without it reads (%s, %s): '
                  'the two are not the same byte range' % (vol, U(sub.slice), U(call.args[1]) if len(call.args) > 1 else '?',
                                                            U(call.args[2]) if len(call.args) > 2 else '?'))
+
+
+def preload_cover(ctx):
+    """C15.8: the in-memory copy made by preload covers the data section of every file the reader accepts.  Its length is
+    <DATA_BLOCKS attribute> * block_bytes.  The reader itself recognises files written before the layout fields existed (it
+    substitutes defaults when the blockshape fields at bytes 44:56 are zero); in those files the DATA_BLOCKS field at 56:60
+    is zero as well.  So the attribute must be zero-tested in the constructor and replaced by the size that follows
+    from the padded shape and the rate - otherwise preload copies 0 bytes and every later read decodes an empty buffer
+    (an error or garbage) where the same call without preload returns the data."""
+    from .. import wiring as WR
+    from .. import headerrules as HR
+    P, G = ctx.P, ctx.G
+    ctx.rule('C15.8', 'the preloaded copy is as long as the data section for every accepted file (zero DATA_BLOCKS field of '
+             'legacy files is replaced by the size derived from shape and rate)')
+    ht = HR.HeaderTable(P, G)
+    roles = WR.attr_roles(ht)
+    attrs = [a for a, r in roles.items() if r[0] == 'DATA_BLOCKS']
+    if len(attrs) != 1:
+        raise AnalysisError('reader attribute holding the DATA_BLOCKS field: found %s' % attrs)
+    attr = attrs[0]
+    init = P.func(RF.READER + '.__init__')
+    # does the reader accept legacy files (zero blockshape -> defaults)?
+    legacy = [n for n in ast.walk(init.node) if isinstance(n, ast.If) and 'blockshape' in U(n.test) and '== 0' in U(n.test)]
+    if not legacy:
+        for m in P.cls(RF.READER).methods.values():
+            legacy += [n for n in ast.walk(m.node) if isinstance(n, ast.If) and 'blockshape' in U(n.test) and '== 0' in U(n.test)]
+    if not legacy:
+        ctx.ok('C15.8', init, 'no legacy branch', 'the reader does not accept files without layout fields', nontrivial=False)
+        return
+    # the loader receives the attribute (same-name wiring) and multiplies it by block_bytes for the preload read
+    lcls = P.cls('loader.SgzLoader')
+    loads = [(f, st, v) for (f, st, v) in P.attr_stores_mro(lcls, 'compressed_volume') if v is not None and U(v) != 'None']
+    uses = [v for (f, st, v) in loads if isinstance(v, ast.Call) and len(v.args) >= 3 and attr in U(v.args[2])]
+    if not uses:
+        raise AnalysisError('preload read whose length uses %s not found' % attr)
+    # zero fallback in the constructor: `if self.<attr> == 0: self.<attr> = f(shape_pad, rate, DISK_BLOCK_BYTES)`
+    ok_node = None
+    for n in ast.walk(init.node):
+        if not isinstance(n, ast.If):
+            continue
+        t = n.test
+        zero_test = (isinstance(t, ast.Compare) and len(t.ops) == 1 and isinstance(t.ops[0], (ast.Eq, ast.LtE)) and
+                     U(t.left) == 'self.' + attr and U(t.comparators[0]) == '0') or \
+                    (isinstance(t, ast.UnaryOp) and isinstance(t.op, ast.Not) and U(t.operand) == 'self.' + attr)
+        if not zero_test:
+            continue
+        for a in n.body:
+            if isinstance(a, ast.Assign) and U(a.targets[0]) == 'self.' + attr:
+                txt = U(a.value)
+                if all(k in txt for k in ('shape_pad[0]', 'shape_pad[1]', 'shape_pad[2]', 'rate', 'DISK_BLOCK_BYTES')):
+                    ok_node = a
+    if ok_node is not None:
+        # the fallback precedes the construction of the loader
+        ctor = [e.call for e in G.callees(init) if e.kind == 'ctor' and e.target is not None and e.target.cls in
+                [lcls] + lcls.all_subclasses() + lcls.mro]
+        if ctor and all(IO.precedes_in_block(_top_stmt(ok_node, init.node), _top_stmt(c, init.node)) for c in ctor):
+            ctx.ok('C15.8', init, ok_node, 'zero %s (legacy file) is replaced by the size derived from shape_pad and rate before the '
+                   'loader is built' % attr)
+            return
+    ctx.fail('C15.8', init, uses[0] if False else legacy[0].test, 'self.%s is taken from header bytes 56:60 as it is, and becomes the '
+             'length of the preload copy (%s): files written before the layout fields existed - which this constructor accepts, '
+             'substituting defaults for their zero blockshape - have 0 there, so with preload=True the copy is empty and every '
+             'read decodes an empty buffer (IndexError or garbage) where the same call without preload returns the data' % (
+                 attr, U(uses[0].args[2])[:60]), key_extra=attr)
+
+
+def _top_stmt(node, fnode):
+    n = node if isinstance(node, ast.stmt) else enclosing_stmt(node)
+    while n is not None and parent(n) is not fnode:
+        n = parent(n)
+    return n
 
 
 def handle(ctx):
